@@ -283,7 +283,7 @@ func checkStats(seg segment.Segment, exp *ref.Content) string {
 	return ""
 }
 
-var gridQueries = append(append([][]float32{}, enum.Grid...), []float32{1, 2, 3})
+var gridQueries = append(append([][]float32{}, enum.Grid...), []float32{1, 2, 3}, []float32{0, 1, 0})
 
 // vecExtra is the light vector oracle used by C04 (unfiltered searches, nil and
 // one-document exclusion) on the in-memory and the re-opened segment.
